@@ -10,6 +10,7 @@ package main
 //	                                      rb = Replay into a batch of target, then Write it
 //	snap <sid> <name> | sget|shas <sid> k | siter <sid> p s | srel <sid>
 //	flush|drop|nfp|nfs <name>             Flush / DropNotFlushed / NotFlushedPairs / NotFlushedSizeEst
+//	init <name>                           LazyFlushable.InitUnderlyingDb
 //	compact <name> <start|nil> <limit|nil>  -> the range that reached the backend
 //	incp <prefix> | nop <key> <prefix> | bpr ldb|pbl <prefix|nil> <start|nil>   (pure helpers)
 
@@ -56,6 +57,7 @@ func (r *recorder) Compact(start, limit []byte) error {
 
 type kvNode struct {
 	store kvdb.Store
+	tb    *table.Table
 	fl    *flushable.Flushable
 	lf    *flushable.LazyFlushable
 }
@@ -169,6 +171,16 @@ func (q *kvRunner) Close() {
 	}
 }
 
+// scribble overwrites a buffer the harness handed to the store: after Put / Delete / batch.Put
+// return, the caller owns its slices again and may reuse them (C22, C23: values must have been copied).
+func scribble(bs ...[]byte) {
+	for _, b := range bs {
+		for i := range b {
+			b[i] ^= 0xa5
+		}
+	}
+}
+
 type bop struct {
 	del  bool
 	k, v []byte
@@ -252,7 +264,18 @@ func (q *kvRunner) Step(line string) string {
 		}
 		switch f[3] {
 		case "t":
-			q.nodes[f[1]] = &kvNode{store: table.New(inner.store, Unhex(f[4]))}
+			// the prefix slice has spare capacity (as slices cut from a buffer have); a table over a
+			// table is made the way applications do it, with NewTable
+			raw := Unhex(f[4])
+			pfx := make([]byte, len(raw), len(raw)+16)
+			copy(pfx, raw)
+			var tb *table.Table
+			if inner.tb != nil {
+				tb = inner.tb.NewTable(pfx)
+			} else {
+				tb = table.New(inner.store, pfx)
+			}
+			q.nodes[f[1]] = &kvNode{store: tb, tb: tb}
 		case "f":
 			fl := flushable.Wrap(inner.store)
 			q.nodes[f[1]] = &kvNode{store: fl, fl: fl}
@@ -278,15 +301,31 @@ func (q *kvRunner) Step(line string) string {
 	st := nd.store
 	switch f[0] {
 	case "put":
-		return errStr(st.Put(Unhex(f[2]), Unhex(f[3])))
+		k, v := Unhex(f[2]), Unhex(f[3])
+		err := st.Put(k, v)
+		scribble(k, v)
+		return errStr(err)
 	case "del":
-		return errStr(st.Delete(Unhex(f[2])))
+		k := Unhex(f[2])
+		err := st.Delete(k)
+		scribble(k)
+		return errStr(err)
 	case "get":
-		v, err := st.Get(Unhex(f[2]))
+		k := Unhex(f[2])
+		v, err := st.Get(k)
+		scribble(k)
 		if err != nil {
 			return errStr(err)
 		}
-		return optHex(v)
+		res := optHex(v)
+		scribble(v) // the result is the caller's own copy
+		return res
+	case "init":
+		if nd.lf == nil {
+			return "nolazy"
+		}
+		_, err := nd.lf.InitUnderlyingDb()
+		return errStr(err)
 	case "has":
 		ok, err := st.Has(Unhex(f[2]))
 		if err != nil {
@@ -306,6 +345,7 @@ func (q *kvRunner) Step(line string) string {
 			} else {
 				err = b.Put(o.k, o.v)
 			}
+			scribble(o.k, o.v)
 			if err != nil {
 				return errStr(err)
 			}
